@@ -122,6 +122,8 @@ pub fn run(p: &Params) -> Run {
         let e = gen_expr(&mut rng, depth, &t, 30);
         check_expr(&mut run, &env, &e, "x:");
     }
+    let env0 = gen_env(&mut rng);
+    crate::c03::boundary_cases(&mut run, &env0, p.tier_thorough);
     // statement level with extreme inputs: correspondence (text format) ...
     let opts = QueryOpts { allow_limit: true, allow_distinct: true, allow_join: false, aggregate: None };
     for _ in 0..p.n(800, 30_000) {
